@@ -54,6 +54,13 @@ def filter_bank(D: int, Ms=(3,), ks=(0, 1, 2), parities=(0, 1)):
     key = (D, tuple(Ms), tuple(ks), tuple(parities))
     if key not in _BANKS:
         _, _, _, geom = _mods()
+        # what an EARLIER request in the same process asked for (a smaller group, the axis flips) must not
+        # influence what the full group gets
+        try:
+            geom.get_invariant_filters(Ms=list(Ms), ks=list(ks)[:2], parities=list(parities), D=D,
+                                       operators=geom.make_C2_group(D))
+        except Exception:  # noqa: BLE001
+            pass
         _BANKS[key] = geom.get_invariant_filters(
             Ms=list(Ms), ks=list(ks), parities=list(parities), D=D, operators=geom.make_all_operators(D)
         )
@@ -202,6 +209,24 @@ def perturb(model, rng, scale: float = 0.5):
         else:
             new.append(leaf)
     return jax.tree_util.tree_unflatten(treedef, new)
+
+
+def gradient_steps(model, blocks: dict, D: int, is_torus=True, steps: int = 2, rate: float = 0.1):
+    """`steps` plain gradient steps on ||model(x) - 1||^2 over ALL inexact-array leaves of the model (the
+    leaves `ml.train` hands to the optimiser), each normalised so that the largest update is `rate`"""
+    jax, jnp, eqx, _ = _mods()
+    x = to_multi_image(blocks, D, is_torus)
+
+    def loss(params, static):
+        y = _call(eqx.combine(params, static), x)
+        return sum((jnp.sum((v - 1.0) ** 2) for v in y.data.values()), jnp.float32(0.0))
+
+    for _ in range(steps):
+        params, static = eqx.partition(model, eqx.is_inexact_array)
+        grads = jax.grad(loss)(params, static)
+        gmax = max([float(jnp.max(jnp.abs(g))) for g in jax.tree_util.tree_leaves(grads)] + [1e-12])
+        model = eqx.apply_updates(model, jax.tree_util.tree_map(lambda g: -(rate / gmax) * g, grads))
+    return model
 
 
 # ---------------------------------------------------------------------------------------------
